@@ -4,6 +4,7 @@ import PngVerif.Driver.C08
 import PngVerif.Driver.C15
 import PngVerif.Driver.C20
 import PngVerif.Driver.Framing
+import PngVerif.Driver.Components
 import PngVerif.Driver.Reader
 /-!
 `pngmodel`: line-protocol driver.  One case per input line, one canonical answer per output line,
@@ -20,6 +21,7 @@ def answer (line : String) : String :=
   | "c15" :: args => c15 args
   | "c20" :: args => c20 args
   | "frm" :: args => frm args
+  | "cmp" :: args => cmp args
   | "rdr" :: args => rdr args
   | _ => "bad-op"
 
